@@ -35,7 +35,7 @@ const (
 	c10SettleWait    = 30 * time.Second
 	c10MarkerWait    = 45 * time.Second
 	c10JoinWait      = 20 * time.Second
-	c10SpoofSidPerMil = 12 // known class is sampled: ~1.2 % of the routable sends
+	c10SpoofSidPerMil = 1 // known class is sampled: ~0.1 % of the routable sends + one forced witness per session
 )
 
 type c10RoundCfg struct {
@@ -47,6 +47,7 @@ type c10RoundCfg struct {
 	ChurnOps    int    `json:"churn_ops_per_client"`
 	ChurnEvents int    `json:"churn_events_per_session"`
 	Storms      int    `json:"membership_storms"`
+	Growth      int    `json:"max_extra_receivers_per_session"`
 }
 
 type c10Payload struct {
@@ -676,6 +677,13 @@ func (rd *c10Round) runStable(r *vk.Rng, phase int) {
 				defer wg.Done()
 				for i := 0; i < rd.cfg.StableOps; i++ {
 					op := rd.genOp(cr, c, true, live)
+					if i == 0 && phase == 0 && c == ms[0] {
+						// one guaranteed witness of the session_id class per session
+						op = c10Op{Kind: "broadcast", Target: "none", FromClass: "omitted", SidClass: "random", Sid: fmt.Sprintf("%032x", cr.U64()), Type: "offer"}
+						if len(rd.sess) > 1 && c.Sess%2 == 0 {
+							op.SidClass, op.Sid = "other-session", rd.sess[(c.Sess+1)%len(rd.sess)].ID
+						}
+					}
 					if !rd.send(c, op, phase, true, c10DestFor(c, op, ms)) {
 						return
 					}
@@ -810,8 +818,8 @@ func (rd *c10Round) runChurn(r *vk.Rng, phase int, last bool) {
 				if len(recvLive) == 0 && kind != "host-duplicate" {
 					kind = "join"
 				}
-				if len(recvLive) >= rd.cfg.PerSession+2 && kind == "join" {
-					kind = "leave"
+				if len(recvLive) >= rd.cfg.PerSession-1+rd.cfg.Growth && kind == "join" {
+					kind = "leave" // keep the round within its client bound
 				}
 				e := c10Event{Phase: phase, Sess: s, Kind: kind, T0: vk.MonoNow()}
 				switch kind {
@@ -1420,25 +1428,27 @@ func c10Judge(rd *c10Round, agg *c10Agg) {
 func runC10(e *Env) {
 	r := vk.NewRng(e.Seed ^ vk.HashStr("c10"+e.Tier))
 	e.R.Rule = "one case = a round against the real thruserv (rate limits off): 2-4 sessions, 8-24 concurrent WebSocket connections, stable phases (fixed membership, <=100 in flight per recipient, markers) alternating with churn phases (join, leave, reconnect, duplicate peer id, duplicate host) while every connection sends addressed (same session / self / unknown id / id of another session), broadcast, spoofed from, spoofed session_id, malformed, incomplete and binary frames; an envelope counts when it was delivered and checked against the author's send log; distinct by (operation kind, addressee relation, from class, session_id class, phase kind), plus peer_not_found reports by (addressee relation, phase kind)"
-	rounds := e.Pick(12, 10)
+	rounds := e.Pick(18, 48)
 	cfgs := make([]c10RoundCfg, rounds)
 	for i := range cfgs {
 		c := c10RoundCfg{Round: i, Seed: r.U64()}
 		if e.Thorough() {
-			c.Sessions, c.PerSession, c.StableOps, c.ChurnOps, c.ChurnEvents, c.Storms = 4, 6, 180, 70, 10, 5
+			// 24 concurrent clients: 4 x 6 or 3 x 8 (no growth beyond the initial membership)
+			c.Sessions, c.PerSession, c.StableOps, c.ChurnOps, c.ChurnEvents, c.Storms, c.Growth = 4, 6, 250, 80, 10, 5, 0
 			if i%3 == 1 {
 				c.Sessions, c.PerSession = 3, 8
 			}
 		} else {
-			c.Sessions, c.PerSession, c.StableOps, c.ChurnOps, c.ChurnEvents, c.Storms = 2+i%3, 4, 120, 60, 8, 2
+			// 8, 12 or 16 initial clients, at most one extra receiver per session; every third round 4 x 5 = 20 (+1 each = 24)
+			c.Sessions, c.PerSession, c.StableOps, c.ChurnOps, c.ChurnEvents, c.Storms, c.Growth = 2+i%3, 4, 120, 60, 8, 2, 1
 			if i%3 == 2 {
-				c.PerSession, c.Storms = 6, 3
+				c.PerSession, c.Storms = 5, 3
 			}
 		}
 		cfgs[i] = c
 	}
 	agg := c10NewAgg()
-	vk.ParallelDo(rounds, e.Pick(4, 4), func(i int) { c10RunRound(e, cfgs[i], agg) })
+	vk.ParallelDo(rounds, e.Pick(4, 6), func(i int) { c10RunRound(e, cfgs[i], agg) })
 
 	sentTotal := 0
 	for _, v := range agg.sends {
